@@ -357,3 +357,6 @@ def run(ctx, rep):
     # a faulty file must not be replaced in the file table by a different file that merely compares equal
     from rules.c06 import rule_types
     rule_types(ctx, rep, rid="R-C03-fileid")
+    # a valid declaration must not hide a fault elsewhere through state a rule visitor carries from one scope to the next
+    from rules.c02 import rule_scope
+    rule_scope(ctx, rep, rid="R-C03-scope")
